@@ -318,6 +318,10 @@ def parse_out(path, drop_x=True):
     return res
 
 
+class ImplRunnerDied(Exception):
+    pass
+
+
 def run_pair(axh, lines, dbg, ovf, tag, mode="model", keep_x=False):
     """run the same cases through the implementation and the extracted model.
     returns (impl_results, model_results) as dicts id -> lines"""
@@ -340,8 +344,10 @@ def run_pair(axh, lines, dbg, ovf, tag, mode="model", keep_x=False):
         rcs = list(ex.map(one, range(len(chunks))))
     impl, model = {}, {}
     for k in range(len(chunks)):
-        if rcs[k][0] != 0 or rcs[k][1] != 0:
-            raise RuntimeError("runner failed on chunk %d: %s" % (k, rcs[k]))
+        if rcs[k][0] != 0:
+            raise ImplRunnerDied("implementation runner died on chunk %d (exit %s); cases in %s" % (k, rcs[k][0], os.path.join(work, "c%d.txt" % k)))
+        if rcs[k][1] != 0:
+            raise RuntimeError("model runner failed on chunk %d: %s" % (k, rcs[k]))
         impl.update(parse_out(os.path.join(work, "o%d.txt" % k), drop_x=not keep_x))
         model.update(parse_out(os.path.join(work, "m%d.txt" % k)))
     shutil.rmtree(work, ignore_errors=True)
